@@ -35,15 +35,15 @@ func TestConcurrentPeers(t *testing.T) {
 		}
 		a := &app{alpha: map[string]int{}}
 		var txs [nAlpha][]byte
-		for i := 0; i < nAlpha; i++ {
-			txs[i] = []byte(strings.Repeat(string(rune('A'+i)), c.Lens[i]))
+		for i := 0; i < c.Alpha; i++ {
+			txs[i] = []byte(strings.Repeat(string(rune(letter(i))), c.Lens[i]))
 			a.alpha[string(txs[i])] = i
 			a.tab[i] = genVerdict(rt)
 		}
 		nPeers := rapid.IntRange(2, 4).Draw(rt, "peers")
 		plans := make([][]int, nPeers)
 		for p := range plans {
-			plans[p] = rapid.SliceOfN(rapid.IntRange(0, nAlpha-1), 4, 14).Draw(rt, "plan")
+			plans[p] = rapid.SliceOfN(rapid.IntRange(0, c.Alpha-1), 4, 14).Draw(rt, "plan")
 		}
 		nBlocks := rapid.IntRange(1, 4).Draw(rt, "blocks")
 		takes := make([]int, nBlocks)
@@ -76,7 +76,7 @@ func TestConcurrentPeers(t *testing.T) {
 				defer wg.Done()
 				for _, i := range plans[p] {
 					err := s.mp.CheckTx(txs[i], nil, mempool.TxInfo{SenderID: uint16(p + 1)})
-					logf("peer %d CheckTx(%c) -> %s", p+1, 'A'+i, errKind(err))
+					logf("peer %d CheckTx(%c) -> %s", p+1, letter(i), errKind(err))
 				}
 			}(p)
 		}
